@@ -3,14 +3,16 @@
  * that includes this file lists them under "assumptions".
  *
  * (1) UNBOUNDED route (default): abstract bodies of memchr / memmem / memcmp / strncasecmp /
- *     memmove / memset.  Each body first ASSERTS that the spans handed to libc are
+ *     memmove.  Each body first ASSERTS that the spans handed to libc are
  *     accessible (an out-of-span call in the code under verification is a failed
  *     obligation named "<fn>: ... readable/writable"), then returns an arbitrary result
  *     permitted by the C standard / glibc manual:
  *       memchr   NULL or s+k, k < n, s[k] == c
  *       memmem   NULL or h+k, k <= hn-nn, first and last needle byte match at k
- *       memcmp, strncasecmp   any int
- *       memmove, memset       destination slice havocked, returns dst
+ *       memcmp                exact for n <= 8 (constant-bounded loop), any int otherwise
+ *       strncasecmp           any int
+ *       memmove               destination slice havocked, returns dst
+ *     (memset is CBMC's own exact model: http_parse_req_line relies on the zeroed record)
  *     Results are built by pointer arithmetic on the argument (not as unconstrained
  *     pointers), which keeps CBMC's points-to sets exact (measured: symex 34 s -> 1.5 s).
  *     Nondeterminism comes only from nondet_* functions.  What is NOT assumed: that a NULL
@@ -61,6 +63,17 @@ int
 memcmp(const void *a, const void *b, size_t n) {
 	__CPROVER_assert(n == 0 || (__CPROVER_r_ok(a, n) && __CPROVER_r_ok(b, n)),
 	    "memcmp: spans readable");
+	__CPROVER_assume(n == 0 || (__CPROVER_r_ok(a, n) && __CPROVER_r_ok(b, n)));
+	if (n <= 8) {	/* short compares ("HTTP/", CRLF) are exact: callers rely on them */
+		for (size_t i = 0; i < 8; i ++) {
+			if (i >= n)
+				break;
+			unsigned char ca = ((const unsigned char *)a)[i], cb = ((const unsigned char *)b)[i];
+			if (ca != cb)
+				return (ca < cb ? -1 : 1);
+		}
+		return (0);
+	}
 	return (nondet_int());
 }
 
@@ -73,6 +86,7 @@ strncasecmp(const char *a, const char *b, size_t n) {
 	return (nondet_int());
 }
 
+#ifndef VF_HTTP_BUILTIN_MEMMOVE
 void *
 memmove(void *dst, const void *src, size_t n) {
 	__CPROVER_assert(n == 0 || __CPROVER_r_ok(src, n), "memmove: source readable");
@@ -83,14 +97,7 @@ memmove(void *dst, const void *src, size_t n) {
 	return (dst);
 }
 
-void *
-memset(void *dst, int c, size_t n) {
-	__CPROVER_assert(n == 0 || __CPROVER_w_ok(dst, n), "memset: destination writable");
-	__CPROVER_assume(n == 0 || __CPROVER_w_ok(dst, n));
-	if (n != 0)
-		__CPROVER_havoc_slice(dst, n);
-	return (dst);
-}
+#endif /* !VF_HTTP_BUILTIN_MEMMOVE */
 
 #else /* VF_HTTP_BOUNDED: executable models, unwound completely */
 void *
